@@ -79,6 +79,13 @@ def parse_specs(text, fname='<spec>'):
             cur.ret = arg
         elif d == 'attr':
             cur.attrs.append(arg)
+        elif d == 'shape':
+            # @shape loops=N closures=M : the number of loops / closures of the function text as
+            # it is cut from the repository (before any rewrite).  A different number means the
+            # function changed shape (a new loop has no invariant, a new closure no contract, and
+            # the ordinals of the others shift): the proof attempt would say nothing about the
+            # property either way, so the run ends undecided (exit 2) instead of raising an alarm.
+            cur.shape = dict((k, int(v)) for k, v in (kv.split('=') for kv in arg.split()))
         elif d == 'loop':
             loop = int(arg)
         elif d == 'closure':
@@ -466,6 +473,13 @@ def _indent(block, pad):
     return '\n'.join((pad + l.strip()) if l.strip() else '' for l in block.split('\n'))
 
 
+def shape_of(text):
+    """{'loops': n, 'closures': m} of a fn item text"""
+    toks, sg, arrow, where, body = _fn_layout(text)
+    ba = toks[sg[body]].a
+    return {'loops': len(find_loops(text, ba)), 'closures': len(find_closures(text, ba))}
+
+
 def inject(text, fs, oblig_lines=None, what=''):
     """Inject FnSpec fs into fn item text.  Returns (new_text, marks) where
     marks is a list of (marker_string, obligation_name) -- every named clause
@@ -473,6 +487,11 @@ def inject(text, fs, oblig_lines=None, what=''):
     mapped back after assembly."""
     rewrites = []
     fs.lifted = []
+    shape = getattr(fs, 'shape', None)
+    if shape is not None and fs.kind == 'fn':
+        have = shape_of(text)
+        if have != shape:
+            raise LostAnchor('%s: shape changed (loops/closures %s -> %s): contract written for another shape' % (fs.path, shape, have))
     for (op, arg, pat, rep) in fs.edits:
         if op == 'lift_closure':
             rule, _, fname = arg.partition(' ')
